@@ -17,7 +17,7 @@ def programs(ctx):
                     if ctx.quick and rng.random() < 0.55:
                         continue
                     generic = (not rhs_other) and (i % 5 == 0)
-                    out.append(fam2.c09_prog("p_%04d" % i, op, bl, br, rhs_other, req, generic=generic, bound_in_where=(i % 10 == 0)))
+                    out.append(fam2.c09_prog("p_%04d" % i, op, bl, br, rhs_other, req, generic=generic, bound_in_where=(i % 10 == 0), rhs_spelled_self=(i % 3 == 1)))
                     i += 1
         for br in (False, True):
             for rhs_other in (False, True):
@@ -52,7 +52,7 @@ def canary():
 
 def run(ctx):
     progs = programs(ctx)
-    st = E.run_family(ctx, "C09", progs, canary(), per=80, extra_support=fam2.C09_SUPPORT)
+    st = E.run_family(ctx, "C09", progs, canary(), missing_impl_re=r"^cannot (add|subtract|multiply|divide|calculate|apply|shift|negate)|^no implementation for|^binary (assignment )?operation|is not satisfied$|^cannot apply unary operator", per=80, extra_support=fam2.C09_SUPPORT)
     ctx.assumptions += [
         "Kani 0.68 / CBMC 6.11, proof_for_contract on one wrapper per generated impl; loop-free, all operand values and clone counters => complete per program",
         "operand types carry a clone counter; the user impl is non-commutative, op-specific and records the counters it sees, so the contract fixes: result == user impl on the same operands in order, applied once (a second application changes v), clone count per operand == 1 iff received by reference (or &mut self) but needed by value",
